@@ -262,6 +262,9 @@ def c01_program(spec, cfgs, report):  # noqa: C901
                 continue
             dumped = outp[idx] is not None and fname in vals
             loaded = inp[idx] is not None
+            if not dumped and loaded and len(inp[idx]) > 1:
+                lossy = True     # the loader requires the nested node of this field although nothing is dumped there (UNSPEC)
+                continue
             if dumped and loaded and outp[idx] == inp[idx]:
                 want[fname] = vals[fname]
             elif req != "req" and fname in vals:
